@@ -7,7 +7,7 @@ V = Path(__file__).resolve().parent.parent
 CHECKS = {
  "C02": dict(
   technique="Coq proof over exact reals of the definitions regenerated from samples.py/utils.py by a fail-closed Python-ast translator; numeric differential (mpmath evaluation of the same IR) against the implementation in numpy/torch/jax x float32/float64",
-  text="Fourteen theorems (log_w per row, logsumexp spec, log-evidence = log mean weight, ESS formula and 1<=ESS<=N via Cauchy-Schwarz, permutation invariance, constant-shift law, relative-error formula, every exp argument <= 0 / <= ln N, rejection rule) proved in Coq for every non-empty population of any size, about Gallina text regenerated from the source on every run; the translator is differentially validated against the running code each run. Proof is the right level because the property quantifies over all vectors; rounding is outside the model and is only sampled.",
+  text="(Rows equal to -inf: the same functions translated over XR = reals + NaN/-inf/+inf; theorems C02_neg_inf_rows_*: a -inf row weighs zero but counts in N, nothing is NaN while one row is finite, all rows -inf gives NaN.) Fourteen theorems (log_w per row, logsumexp spec, log-evidence = log mean weight, ESS formula and 1<=ESS<=N via Cauchy-Schwarz, permutation invariance, constant-shift law, relative-error formula, every exp argument <= 0 / <= ln N, rejection rule) proved in Coq for every non-empty population of any size, about Gallina text regenerated from the source on every run; the translator is differentially validated against the running code each run. Proof is the right level because the property quantifies over all vectors; rounding is outside the model and is only sampled.",
   note="Trusted: Coq kernel; real-number axioms + classic + functional_extensionality_dep (Reals/Coquelicot, listed by Print Assumptions); tools/translate.py and its mpmath evaluator; binary32/64 rounding inside exp/log/sum not modelled; rows with -inf log-weight covered by search only.",
   ref="DESIGN.md section 5 C02"),
 }
